@@ -126,6 +126,10 @@ def run(f, fixture, rep, cfg, tier):
             inner = suffix % FILES_ITEM
             ok = inner.split("bits(")[1] in got[0]
         rep.check(ok, "R2", "file|%s" % tag, "%s <- per-file %s" % (tag, suffix.strip(".%s()")), "%s is written as %s" % (tag, [g[len(ID):][:200] for g in got]), pd.span)
+    mt = [d for d, _c in by_tag.get("RPMTAG_FILEMTIMES", [])]
+    want_mt = ID + "Int32{buf[write:std::vec::Vec::<T, A>::push(phi(self.source_date<Some>.0 | %s.modified_at))]}" % FILES_ITEM
+    rep.check(mt == [want_mt], "R2", "file|RPMTAG_FILEMTIMES", "FILEMTIMES <- per-file mtime, or the source date when that is earlier",
+              "FILEMTIMES is written as %s" % [x[len(ID):][:220] for x in mt], pd.span)
     caps = [d for d, _c in by_tag.get("RPMTAG_FILECAPS", [])]
     rep.check(len(caps) == 1 and FILES_ITEM + ".caps" in caps[0], "R2", "file|RPMTAG_FILECAPS", "FILECAPS <- per-file caps", "FILECAPS is written as %s" % [c[:160] for c in caps], pd.span)
     sizes = [d for d, _c in by_tag.get("RPMTAG_FILESIZES", [])] + [d for d, _c in by_tag.get("RPMTAG_LONGFILESIZES", [])]
